@@ -144,8 +144,8 @@ def equal_pred(name, got, exp):
 
 
 def has_physics_output(stdout):
-    if re.search(r"(?m)^\s*-?\d\.\d{8}e[+-]\d+\s*$", stdout):
-        return True
+    if re.search(r"(?m)^\s*(-?\d\.\d{8}e[+-]\d+|-?nan|-?inf)\s*$", stdout):
+        return True   # a number, or a non-finite result printed as such
     for blk, key in (("GM2CalcOutput", "0"), ("LOWEN", "6"), ("SPhenoLowEnergy", "21")):
         inside = False
         for line in stdout.split("\n"):
@@ -273,16 +273,17 @@ def run(chk):
                 cfgtxt = "Block GM2CalcConfig\n     %d     %s\n" % (key, val)
                 rej_jobs.append((idx, "config-value", "%d:%s" % (key, val), text + cfgtxt, True, "GM2CALCCONFIG"))
 
-        def do_rej(j):
+        def do_rej(nj):
+            n_, j = nj
             idx, kind, tok, t, expect_reject, blk = j
-            r = cli.run_cli(binary, fmt, t, workdir=d, name="rej_%d_%d.in" % (idx, abs(hash((kind, tok, blk))) % 10 ** 9))
+            r = cli.run_cli(binary, fmt, t, workdir=d, name="rej_%d.in" % n_)
             try:
                 os.remove(r["path"])
             except OSError:
                 pass
             return j, r
         base_out = {}
-        for j, r in cli.pmap(do_rej, rej_jobs):
+        for j, r in cli.pmap(do_rej, list(enumerate(rej_jobs))):
             idx, kind, tok, t, expect_reject, blk = j
             chk.evaluations += 1
             chk.conclusive += 1
